@@ -10,7 +10,7 @@ for X in "$@"; do
   ID=${X%%-*}
   W=/tmp/rg-$X-$$
   git -C /repo worktree add --detach $W HEAD >/dev/null 2>&1 || { echo "$X worktree failed"; continue; }
-  if ! ( cd $W && git apply /verif/seeded/$X/patch.diff 2>/dev/null ); then echo "$X patch does not apply"; git -C /repo worktree remove --force $W; continue; fi
+  if ! ( cd $W && { git apply /verif/seeded/$X/patch.diff 2>/dev/null || git apply --3way /verif/seeded/$X/patch.diff 2>/dev/null; } ); then echo "$X patch does not apply"; git -C /repo worktree remove --force $W; continue; fi
   L=/var/tmp/regress/$X.log; mkdir -p /var/tmp/regress
   VERIF_REPO=$W timeout 3000 ./run.sh $ID --tier quick > $L 2>&1; RC=$?
   NV=$(grep -c '^VIOLATION' $L)
